@@ -163,8 +163,11 @@ def kernel_cell(cell, common):
     call, ref, size_total, inputs = _make_kernel(name, sz, dtype, (name, dtype, sz))
     rt = 1e-12 if _real_dtype(dtype) == "float64" else 2e-5
     out = []
-    serial = np.asarray(call(1, 2**20))
-    if not np.allclose(serial, ref, rtol=rt, atol=rt):
+    with sched.Seam() as seam0:
+        # inside the seam so that np.empty is NaN-filled: an element the serial
+        # kernel never writes is then visible (and deterministic)
+        serial = np.asarray(seam0.run(lambda: call(1, 2**20), ("id", 0))[0])
+    if serial.shape != np.shape(ref) or not np.allclose(serial, ref, rtol=rt, atol=rt):
         out.append(table.bad(core.problem("%s serial result differs from numpy" % name, root="serial-wrong", entry=name), sub=("serial",)))
         return out
     snap = [x.copy() for x in inputs]
@@ -387,7 +390,8 @@ def smoke_cell(cell, common):
     deciding step - see DESIGN 3/C16)."""
     name, dtype, sz, nt, tb = cell["kernel"], cell["dtype"], cell["size"], cell["nt"], cell["tb"]
     call, ref, size_total, inputs = _make_kernel(name, sz, dtype, (name, dtype, sz))
-    serial = np.asarray(call(1, 2**20))
+    with sched.Seam() as seam0:
+        serial = np.asarray(seam0.run(lambda: call(1, 2**20), ("id", 0))[0])
     root = "zero-blocks" if (size_total > tb and zero_blocks_case(_rows_partitioned(name, sz), tb, nt)) else "kernel"
     if root == "zero-blocks":
         return table.rejected("smoke skips zero-block cases (decided by the seam pass)")
@@ -422,6 +426,11 @@ def run(ctx):
         "thread pool obtained only through quimb.core.get_thread_pool (seam)",
     ]
     table.run(ctx, "grid_cell", [{"size": s} for s in sizes_grid], name="A:partition-grid", chunk=8)
+    if any(rec["sig"].get("root") in ("partition", "zero-blocks") and rec["sig"].get("entry", "").startswith("threading_") for rec in ctx.viol.values()):
+        # the kernels index their output with these ranges and numba does not
+        # bounds-check: running them on a broken partition corrupts memory
+        ctx.cap("kernel passes B-E skipped: the partition arithmetic (pass A) is violated, kernels would write out of bounds")
+        return
     kcells = [{"kernel": k, "dtype": dt, "size": s} for k in KERNELS for dt in dtypes for s in ksizes if not (k in ("complex_array", "phase_to_complex") and dt.startswith("complex"))]
     table.run(ctx, "kernel_cell", kcells, common={"nts": nts, "tbs": tbs}, name="B:kernels", chunk=2)
     mcells = [{"kind": "par_reduce", "n": n, "nt": nt} for n in range(1, 8) for nt in (2, 3, 4)]
